@@ -238,3 +238,7 @@ func TestVF_C19_Exhaustive(t *testing.T) {
 		s.ClassAdd(fmt.Sprintf("cap=%d", cap), evals)
 	}
 }
+
+func FuzzVF_C19(f *testing.F) {
+	kit.DriveFuzz(f, "C19", "FuzzVF_C19", "native coverage-guided fuzzing (go test -fuzz) of the byte stream behind the generator of TestVF_C19, same oracle", vfGenC19, vfRunC19)
+}
